@@ -147,7 +147,7 @@ static void observe(const density_sketch<T, K>& s, const Model<T>& m, Rng& r, co
       long double exact = 0;
       for (auto& p : m.pts) exact += ref_kernel(kern, p, pt);
       exact /= static_cast<long double>(m.n);
-      const double tol = (sizeof(T) == 4 ? 5e-4 : 1e-10) * std::max<double>(double(exact), 0) + (sizeof(T) == 4 ? 1e-6 : 1e-15);
+      const double tol = (sizeof(T) == 4 ? 5e-4 : 1e-10) * std::max<double>(double(exact), 0) + (sizeof(T) == 4 ? 1e-36 : 1e-300);   // relative: tiny kernel means far from the data count too
       VF_CHECK(std::fabs(double(est) - double(exact)) <= tol, P + "exact-mode-estimate-differs-from-kernel-mean", ctx + " est=" + str(est) + " exact=" + str(double(exact)));
       count("exact_mode_estimates");
     } else count("estimation_mode_estimates");
@@ -268,7 +268,36 @@ static void huge_dimension_case(Rng& r) {
   count("huge_dimension_cases");
 }
 
+
+// many levels: a tiny sketch merged with a copy of itself ~40 times (n doubles each time, one level more every step or two);
+// iteration weights must stay 2^level beyond level 31
+static void deep_levels_case(Rng& r) {
+  typedef gaussian_kernel<double> KK;
+  const KK kern{};
+  const uint16_t k = uint16_t(r.range(2, 6));
+  const uint32_t dim = uint32_t(r.range(1, 3));
+  describe("deep levels k=" + std::to_string(k) + " dim=" + std::to_string(dim));
+  random_utils::rand.seed(r.next()); random_utils::random_bit.seed(uint32_t(r.next()));
+  density_sketch<double, KK> s(k, dim, kern);
+  Model<double> m;
+  const int n0 = int(r.range(k + 1, 4 * k));
+  for (int i = 0; i < n0; ++i) { std::vector<double> p(dim); for (auto& x : p) x = (r.unit() - 0.5) * 4; s.update(p); m.pts.push_back(p); m.n++; }
+  unsigned max_levels = 0;
+  for (int step = 0; step < 42; ++step) {
+    density_sketch<double, KK> copy(s);
+    if (r.coin()) s.merge(copy); else s.merge(std::move(copy));
+    m.n *= 2;
+    if (step >= 28 || r.chance(0.2)) observe(s, m, r, "merge with a copy of itself, step " + std::to_string(step + 1), k, dim, kern);
+    auto img = s.serialize(); std::vector<uint8_t> iv(img.begin(), img.end());
+    uint32_t idim = 0, iret = 0; uint64_t in = 0; std::vector<uint32_t> lv;
+    if (decode_levels(iv, sizeof(double), idim, iret, in, lv)) max_levels = std::max<unsigned>(max_levels, unsigned(lv.size()));
+  }
+  if (max_levels >= 33) count("deep_levels_cases_beyond_level_32");
+  count("deep_levels_cases");
+}
+
 void run_case(uint64_t idx, Rng& r) {
+  if (idx % 97 == 23) { deep_levels_case(r); return; }
   if (idx % 97 == 11) { huge_dimension_case(r); return; }
   switch (r.below(8)) {
     case 7: program<double, amplitude_kernel<double>>(r); count("huge_amplitude_kernel_programs"); break;
